@@ -15,3 +15,22 @@ class ScaleK(py4hw.Logic):
     def propagate(self):
         x = self.a.get() * self.k
         self.r.put((x + 1) & 65535)
+
+
+class MealyAcc(py4hw.Logic):
+    """A leaf with both clock() and propagate() (Mealy style FSM block): the state lives in the object, the output
+    is a combinational function of the state and the input.  clock() prepares no wire."""
+
+    def __init__(self, parent, name, a, r):
+        super().__init__(parent, name)
+        self.a = self.addIn('a', a)
+        self.r = self.addOut('r', r)
+        self.s = 0
+
+    def clock(self):
+        self.s = (self.s ^ self.a.get()) & ((1 << self.r.getWidth()) - 1)
+
+    def propagate(self):
+        self.r.put(self.s + self.a.get())
+
+
